@@ -285,7 +285,13 @@ let () =
       bump "kind_prop"; bump ("prop_" ^ atom how ^ "_" ^ (match o with PSel _ -> "sel" | PNotFound -> "notfound" | POther -> "other" | PPanic -> "panic"));
       note_nontrivial (show (List.hd sx));
       let agree = prop_obs_agrees m o in
-      verdict ~agree ~spec:(prop_obs_spec_ok m o) ~kf:"-"
+      (* which of several propstats with the same property decides is not C15's subject:
+         the specification accepts the other reading as well *)
+      let m_alt = match how with
+        | A "dp" -> decode_prop_alt tag (match rc with A "-" -> None | c -> Some (n_of_int (int_ c))) pss
+        | _ -> m in
+      if not (prop_obs_agrees m_alt o = agree) then bump "prop_readings_differ";
+      verdict ~agree ~spec:(prop_obs_spec_ok m o || prop_obs_spec_ok m_alt o) ~kf:"-"
         ~detail:(Printf.sprintf "model=%s" (match m with Ok s -> "sel " ^ show_chars s | Err N0 -> "err" | Err _ -> "err(code)" | Panic -> "panic"))
     (* ---- Response.DecodeProp with several values *)
     | [L [A "propm"; L tags; rc; L pss]; L [A "obs"; ob]] ->
@@ -305,7 +311,8 @@ let () =
       bump (Printf.sprintf "propm_%d_%s" (List.length tags) (match o with PMSel _ -> "sel" | PMNotFound -> "notfound" | PMOther -> "other" | PMPanic -> "panic"));
       note_nontrivial (show (List.hd sx));
       let agree = propm_obs_agrees m o in
-      verdict ~agree ~spec:(propm_obs_spec_ok m o) ~kf:"-"
+      let m_alt = decode_prop_all_alt tags (match rc with A "-" -> None | c -> Some (n_of_int (int_ c))) pss in
+      verdict ~agree ~spec:(propm_obs_spec_ok m o || propm_obs_spec_ok m_alt o) ~kf:"-"
         ~detail:(Printf.sprintf "model=%s" (match m with Ok l -> "sels " ^ String.concat " " (List.map show_chars l) | Err N0 -> "err" | Err _ -> "err(code)" | Panic -> "panic"))
     (* ---- valueXMLName *)
     | [L [A "name"; tag]; L [A "obs"; ob]] ->
